@@ -63,6 +63,10 @@ CLAIMED['C05'] = dict(
    text='Machine-checked theorems on a state-machine model of InvariantedClass over attribute dictionaries, for every class, invariant stack, instance state and operation: an assignment or instance-method call that completes leaves every invariant true; a method is not entered when an invariant is already false; a violating assignment is not rolled back; static methods / properties / reads are untouched; nothing is validated while contracts are disabled; and a refutation of the `_` form on class-level attributes (known finding). The model is hand-written with pinned source; real deal.inv classes (stacked invariants in both forms, subclasses) are driven through random histories and compared step by step with the model; an independent monitor re-evaluates the invariants on vars(obj) after every step.',
    design_ref='DESIGN.md 4.5', note=GENERIC_NOTE + ' InvariantedClass is modelled by hand (pinned source + correspondence); invariants are drawn from a small predicate grammar over integer attributes.',
    technique='Coq proof over a hand-written state-machine model (source-pinned) + differential correspondence + monitor')
+CLAIMED['C20'] = dict(
+   text='Machine-checked theorems on a state-machine model of deal/_imports.py (activate / deactivate / module_load / DealLoader.exec_module / _get_contracts / _exec_contract): activation is idempotent and reversible and inert when disabled; a module that declares module-load contracts imported without activation raises RuntimeError; a module without declaration imports as without deal; an unsupported declaration is rejected and nothing is registered; a failed import leaves no module registered; plus a machine-checked refutation for aliased declarations (known finding). The model is hand-written with pinned source; random action lists (activate / deactivate / enable / disable / import of freshly generated modules of every declaration form and import-time behaviour) run through the real import system in a fresh process per case and are compared with the model; an independent monitor restates the property.',
+   design_ref='DESIGN.md 4.20', note=GENERIC_NOTE + ' importlib is an oracle (a module whose execution raised is not registered); _imports.py is modelled by hand (pinned source + correspondence).',
+   technique='Coq proof over a hand-written state-machine model (source-pinned) + differential correspondence through the real import system')
 UNCLAIMED_REASON = 'not claimed yet: the Coq model and check for this property are still under construction in this round (no technique switch intended)'
 checks, na = [], []
 for p in props:
